@@ -135,6 +135,7 @@ let handle (toks : string list) : string =
       (match parse_text (fixed = "1") (asciis_of_hex (if hex = "-" then "" else hex)) with POk p -> "ok " ^ string_of_pstr p | PErr -> "ValueError")
   | "klocal" :: n :: gens ->
       res_str strs (k_local_generators (nat_of_int (int_of_string n)) (List.map pstr_of_string gens))
+  | ["sufamilies"] -> String.concat ";" (List.map (fun ((k, n0), g) -> Printf.sprintf "a%d %d %s" (int_of_nat k) (int_of_nat n0) (String.concat "," (List.map string_of_pstr g))) su_family_table)
   | ["universal"; n; k] -> res_str strs (universal (nat_of_int (int_of_string n)) (nat_of_int (int_of_string k)))
   | "nested" :: seq -> (match nested_eval (List.map pstr_of_string seq) with None -> "None" | Some r -> string_of_pstr r)
   | "compileok" :: n :: k :: target :: seq ->
